@@ -343,7 +343,7 @@ def record_traces(seed, n, length, devs):
                 ev.update(num=[int(x) for x in num], den=int(den), ord=order)
                 events.append(ev)
         except ViewsDisagree as e:
-            fails.append(("C09|live-object|views-disagree-after-%s" % acts[-1].split(":")[0], {"start": start, "order": order, "actions": acts, "err": str(e)}))
+            fails.append(("C09|live-object|views-disagree-after-%s" % (acts[-1].split(":")[0] if acts else "Construct"), {"start": start, "order": order, "actions": acts, "err": str(e)}))
             continue
         except Exception as e:  # noqa
             fails.append(("C09|live-object|raises-%s" % type(e).__name__, {"start": start, "order": order, "actions": acts, "err": str(e)[:200]}))
